@@ -1,28 +1,49 @@
 ----------------------------------------- MODULE MC_Collide -----------------------------------------
-(* C15: name collisions between a definition and a nested module of another file.  Files:            *)
-(*   1: module A      declares a definition named B (kind k1) and a user of the reference             *)
-(*   2: module A::B   declares X                                                                      *)
-(*   3: module A::B::C (optional) declares Y                                                          *)
-(* Every permutation of the files must give the same lookup result (intended table); the as-built    *)
-(* last-writer-wins table is order dependent (AsBuiltOrderIndependent is expected to be violated     *)
-(* when Dev = TRUE documents the pinned behaviour).                                                   *)
+(* C15: name collisions.  Arrangements (arr):                                                        *)
+(*  "defmod"   1: module A  declares a definition B (kind k1);  2: module A::B declares X;            *)
+(*             3 (optional): module A::B::C declares Y                                                *)
+(*  "membermod" 1: module A declares a container N with a member T (a field / operation / enumerator  *)
+(*             / parameter: kc);  2: module A::N declares a definition T (kind k1);                   *)
+(*             3 (optional): module A::N::T declares Y          - the keys A::N::T coincide           *)
+(*  "defdef"   1: module A declares B (kind k1);  2: module A declares B again (kind k2); a user      *)
+(*             refers to B - rejected in every order (redefinition)                                   *)
+(*  "ppdefine" 1: '#define FLAG';  2: '#if FLAG' around a member (v = "member") or around a           *)
+(*             redefinition (v = "redef"): preprocessor symbols are per file                          *)
+(* Every permutation of the files must give the same lookup result with the intended table; the      *)
+(* as-built last-writer-wins table is order dependent (MC_Collide_asbuilt documents that).            *)
 EXTENDS NameTable, TLC, Json
 CONSTANT AsBuilt
-VARIABLES k1, withC, ref, perm
+VARIABLES arr, k1, k2, withC, ref, perm
 Kinds1 == {"struct", "enum", "custom", "alias", "interface"}
-Refs == {[scope |-> <<"A">>, segs |-> <<"B">>, global |-> FALSE], [scope |-> <<"A">>, segs |-> <<"B", "X">>, global |-> FALSE],
-         [scope |-> <<"A">>, segs |-> <<"A", "B">>, global |-> TRUE], [scope |-> <<"A", "B">>, segs |-> <<"B">>, global |-> FALSE]}
-Files3 == << [mod |-> <<"A">>, ents |-> <<[name |-> "B", kind |-> k1]>>], [mod |-> <<"A", "B">>, ents |-> <<[name |-> "X", kind |-> "struct"]>>],
-             [mod |-> <<"A", "B", "C">>, ents |-> <<[name |-> "Y", kind |-> "struct"]>>] >>
-N == IF withC THEN 3 ELSE 2
+ContainerKinds == {"field", "operation", "enumerator", "parameter"}
+RefsDM == {[scope |-> <<"A">>, segs |-> <<"B">>, global |-> FALSE], [scope |-> <<"A">>, segs |-> <<"B", "X">>, global |-> FALSE],
+           [scope |-> <<"A">>, segs |-> <<"A", "B">>, global |-> TRUE], [scope |-> <<"A", "B">>, segs |-> <<"B">>, global |-> FALSE]}
+RefsMM == {[scope |-> <<"A", "N">>, segs |-> <<"T">>, global |-> FALSE], [scope |-> <<"A">>, segs |-> <<"N", "T">>, global |-> FALSE],
+           [scope |-> <<"A">>, segs |-> <<"A", "N", "T">>, global |-> TRUE], [scope |-> <<"A", "N", "T">>, segs |-> <<"T">>, global |-> FALSE]}
+FilesDM == << [mod |-> <<"A">>, ents |-> <<[name |-> "B", kind |-> k1]>>], [mod |-> <<"A", "B">>, ents |-> <<[name |-> "X", kind |-> "struct"]>>],
+              [mod |-> <<"A", "B", "C">>, ents |-> <<[name |-> "Y", kind |-> "struct"]>>] >>
+FilesMM == << [mod |-> <<"A">>, ents |-> <<[name |-> "N", kind |-> "container"]>>], [mod |-> <<"A", "N">>, ents |-> <<[name |-> "T", kind |-> k1]>>],
+              [mod |-> <<"A", "N", "T">>, ents |-> <<[name |-> "Y", kind |-> "struct"]>>] >>
+Files3 == IF arr = "membermod" THEN FilesMM ELSE FilesDM
+N == IF arr \in {"defmod", "membermod"} THEN (IF withC THEN 3 ELSE 2) ELSE 2
 Perms(n) == {p \in [1..n -> 1..n] : \A a, b \in 1..n : a # b => p[a] # p[b]}
-Init == k1 \in Kinds1 /\ withC \in BOOLEAN /\ ref \in Refs /\ perm \in Perms(IF withC THEN 3 ELSE 2)
-Next == UNCHANGED <<k1, withC, ref, perm>>
+Lookups == arr \in {"defmod", "membermod"}
+Init == /\ arr \in {"defmod", "membermod", "defdef", "ppdefine"}
+        /\ k1 \in Kinds1
+        /\ k2 \in (CASE arr = "membermod" -> ContainerKinds [] arr = "defdef" -> Kinds1 [] arr = "ppdefine" -> {"member", "redef"} [] OTHER -> {"-"})
+        /\ (arr = "ppdefine" => k1 = "struct")
+        /\ withC \in (IF arr \in {"defmod", "membermod"} THEN BOOLEAN ELSE {FALSE})
+        /\ ref \in (CASE arr = "defmod" -> RefsDM [] arr = "membermod" -> RefsMM [] OTHER -> {[scope |-> <<"A">>, segs |-> <<"B">>, global |-> FALSE]})
+        /\ perm \in Perms(IF arr \in {"defmod", "membermod"} /\ withC THEN 3 ELSE 2)
+Next == UNCHANGED <<arr, k1, k2, withC, ref, perm>>
 Ordered(p) == [i \in 1..N |-> Files3[p[i]]]
 Identity == [i \in 1..N |-> i]
-OrderIndependentIntended == LookupIntended(Ordered(perm), ref) = LookupIntended(Ordered(Identity), ref)
-AsBuiltOrderIndependent == AsBuilt => LookupAsBuilt(Ordered(perm), ref) = LookupAsBuilt(Ordered(Identity), ref)
-\* the definition is what a reference designates: a module is never a type
-DefinitionWins == LookupIntended(Ordered(perm), [scope |-> <<"A">>, segs |-> <<"B">>, global |-> FALSE]).kind = k1
-Emit == PrintT(<<"CASE", ToJson([k1 |-> k1, withC |-> withC, ref |-> ref, perm |-> perm])>>)
+OrderIndependentIntended == Lookups => LookupIntended(Ordered(perm), ref) = LookupIntended(Ordered(Identity), ref)
+AsBuiltOrderIndependent == (AsBuilt /\ Lookups) => LookupAsBuilt(Ordered(perm), ref) = LookupAsBuilt(Ordered(Identity), ref)
+\* the definition is what a reference designates: neither a module nor a member is ever a type
+DefinitionWins ==
+  /\ arr = "defmod" => LookupIntended(Ordered(perm), [scope |-> <<"A">>, segs |-> <<"B">>, global |-> FALSE]).kind = k1
+  /\ arr = "membermod" => LookupIntended(Ordered(perm), [scope |-> <<"A", "N">>, segs |-> <<"T">>, global |-> FALSE]).kind = k1
+\* the permutation is applied by the harness (all of them); one case per arrangement
+Emit == perm = Identity => PrintT(<<"CASE", ToJson([arr |-> arr, k1 |-> k1, k2 |-> k2, withC |-> withC, ref |-> ref])>>)
 ====================================================================================================
